@@ -72,6 +72,7 @@ pub mod verif {
     pub use crate::canonicalize::verif_number_patterns;
     pub use crate::speech::verif_take_join_log;
     pub use crate::prefs::verif_rule_files;
+    pub use crate::shim_filesystem::verif_take_read_log;
 }
 
 #[cfg(test)]
